@@ -27,8 +27,9 @@ character scans (no use of the interpreter's lines/trim models):
  (iii) literal-neutral: (i)+(ii) for call sequences containing push_str_literal
        (literal characters never open/close/comment in the rule above)
  (iv)  balanced-restores: if the brace events of I are balanced (never below
-       the start, net zero) the probe line is indented by exactly the sum of the
-       explicit indent/deindent amounts.
+       the start, net zero) and every deindent is covered by earlier explicit
+       indents, the probe line is indented by exactly the sum of the explicit
+       indent/deindent amounts.
 Precondition: deindent is only called when legal (its usize underflow panic is
 assumed away); every other panic site must be unreachable.
 """
@@ -252,12 +253,14 @@ def oracle(calls, out, out2):
     g["indent_weak"] = And(*goals_weak)
     # (iv): the probe's "a" line is the second-to-last line of I: its index = nl_total - 1
     E = bv(0, 8)
+    exp_ok = TRUE       # every deindent is covered by earlier explicit indents (the explicit sum never goes negative)
     for pos, is_ind, is_de, amt8 in events:
+        exp_ok = And(exp_ok, Implies(is_de, Ule(amt8, E)))
         E = Ite(is_ind, Add(E, amt8), Ite(is_de, Sub(E, amt8), E))
     Wp = bv(0, 8)
     for p in range(so.P):
         Wp = Add(Wp, b2bv(And(so.lead[p], Eq(Add(so.lineno[p], L(1)), so.nlines_nl)), 8))
-    balanced = And(bal_ok, Eq(C, bv(0, 8)))
+    balanced = And(bal_ok, Eq(C, bv(0, 8)), exp_ok)
     g["balanced"] = balanced
     g["restores"] = Implies(balanced, Eq(Wp, z3.Concat(z3.Extract(6, 0, E), bv(0, 1))))
     g["any_literal"] = any_literal
@@ -368,8 +371,13 @@ def concrete_oracle(ops, out2):
         pos += len(line) + 1
     if wellnested and not bad:
         bad += ind_bad
-    E = sum(d for _, d in events)
-    if not bad and balanced and C == 0 and len(olines) >= 2:
+    E = 0
+    exp_ok = True
+    for _, d in events:
+        E += d
+        if E < 0:
+            exp_ok = False
+    if not bad and balanced and exp_ok and C == 0 and len(olines) >= 2:
         pl = olines[-2]
         Wp = len(pl) - len(pl.lstrip(" \t"))
         if Wp != 2 * E:
@@ -660,7 +668,10 @@ def run(ctx):
     jobs.sort(key=lambda j: -sum(j[1]["cap"] for k in j[0] if k in (0, 1)))
     combos = jobs
     with multiprocessing.get_context("fork").Pool(2) as pool:       # 2 workers x 2 racing solvers = 4 cores
-        outs = pool.map(check_combo, [(c, tier, seed, B, i == 0) for i, (c, B) in enumerate(jobs)], chunksize=1)
+        # second opinions (all three solvers run to completion/cap): one kind sequence in the quick tier,
+        # two (not the most expensive ones) in the thorough tier
+        sec = {0} if tier == "quick" else {3, 4}
+        outs = pool.map(check_combo, [(c, tier, seed, B, i in sec) for i, (c, B) in enumerate(jobs)], chunksize=1)
     seen_roles = set()
     caps = []
     for o in outs:
